@@ -9,7 +9,7 @@ WARN := -w
 GXX ?= g++
 CLANGXX ?= clang++
 COMMON := $(CXXSTD) $(WARN) -fno-exceptions -I$(INC) -Iharness
-SAN := -fsanitize=address,undefined -fno-sanitize=alignment,function,vptr -fno-sanitize-recover=all -fno-omit-frame-pointer -g -O1
+SAN := -fsanitize=address,undefined -fno-sanitize=alignment,function,vptr,float-cast-overflow -fno-sanitize-recover=all -fno-omit-frame-pointer -g -O1
 
 build/headers.sha:
 	@mkdir -p build
